@@ -314,7 +314,23 @@ def r4_http_stop_arm(ctx):
             R.check(any(l.kind == "param" or "stopped" in " ".join(l.chain) for l in l1), "C10.R4", "serve_with_graceful_shutdown:races-stop", "the connection is raced against the stop future", "select's second operand is not the stop future", where(sel[0]))
 
 
-RULES = [r1_who_keeps_stopped_pending, r2_service_handle, r3_writer_stops_last, r4_http_stop_arm]
+
+def _borrowed(modname, fname):
+    def run(ctx):
+        import importlib
+        mod = importlib.import_module("jrsa.rules." + modname)
+        return getattr(mod, fname)(ctx)
+    run.__name__ = "%s_%s" % (modname, fname)
+    return run
+
+
+# a subscribe call that is executing at stop() is answered by PendingSubscriptionSink::accept itself (the per-message task
+# does not send subscription answers): the answer must be on the connection queue before the call future resolves and
+# releases the pending-call token (C04.R1 accept ordering); the writer is joined (C04.R6)
+BORROWED = [_borrowed("c04", "r1_typestate"), _borrowed("c04", "r6_single_writer")]
+
+
+RULES = [r1_who_keeps_stopped_pending, r2_service_handle, r3_writer_stops_last, r4_http_stop_arm] + BORROWED
 
 LEVEL_TEXT = (
     "Only the ownership / ordering skeleton of graceful stop is decided (the statement quantifies over schedules): which "
